@@ -225,6 +225,33 @@ def positions_mapping_table(ctx, F):
                 "FoldFSM::meet_iteration_start no longer pairs new_to_prev_pos with prev_fold and new_to_current_pos with current_fold")
 
 
+def row_scheme_agrees(ctx, F):
+    """For the two mergers that feed stream values (call, ap): the PreparationScheme handed on with a merged state names
+    the side(s) the state was met on — (X, None) -> Previous, (None, X) -> Current, (Ap, Ap) -> Both (for calls the
+    two-sided case is decided by merge_call_results, see call_scheme_agrees).  The scheme decides which position maps
+    get an entry for the new trace position (positions_mapping_table) and hence whether a later fold finds the
+    iteration recorded by each side."""
+    for name, callee in (("ap", "prepare_merge_result"), ("call", "prepare_call_result")):
+        fname, kind = MERGERS[name]
+        f = F.fn(fname, crate="air_trace_handler")
+        prov = Prov(f)
+        got = {}
+        for st in lib.enumerate_paths(f, prov, max_paths=60000):
+            pp = PathProv(f, st.blocks)
+            for c in st.calls:
+                if not c.path.endswith(callee):
+                    continue
+                state, scheme = pp.operand(c.args[0]), pp.operand(c.args[1])
+                side = ("prev" if lib.mentions_call(state, "prev_slider_mut") else "") + ("+current" if lib.mentions_call(state, "current_slider_mut") else "")
+                both_met = all(any(v == "Some" and k[1] == (("f", i),) for k, v in st.variants.items()) for i in (0, 1))
+                sch = scheme[2] if scheme[0] == "agg" else ("from-merge" if lib.mentions_call(scheme, "merge_call_results") else show(scheme)[:40])
+                got.setdefault(("both" if both_met else side.strip("+")), set()).add(sch)
+        want = {"prev": {"Previous"}, "current": {"Current"}, "both": {"Both"} if name == "ap" else {"from-merge"}}
+        ctx.require(got == want, "R-TABLE", "row-scheme:" + name, "%s merger: met on prev only -> Previous, current only -> Current, both -> %s" % (name, "Both" if name == "ap" else "scheme of merge_call_results"),
+                    "try_merge_next_state_as_%s hands on schemes %s, expected %s: the position maps would miss (or invent) the side a state was met on" % (name, {k: sorted(v) for k, v in got.items()}, {k: sorted(v) for k, v in want.items()}),
+                    sample={"merger": name, "schemes": {k: sorted(v) for k, v in got.items()}})
+
+
 def call_scheme_agrees(ctx, F):
     """The PreparationScheme reported with a merged call names the side whose operand is returned."""
     f, cells = call_cells(ctx, F)
